@@ -35,9 +35,15 @@ def run_one(entry, tier):
     try:
         p = os.path.join(d, entry["file"])
         s = open(p).read()
-        if entry["old"] not in s:
-            return entry, "STALE", "pattern not found (catalogue out of date)", ""
-        s = s.replace(entry["old"], entry["new"], entry.get("count", 1))
+        if entry.get("regex"):
+            s2 = re.sub(entry["old"], entry["new"], s)
+            if s2 == s:
+                return entry, "STALE", "pattern not found (catalogue out of date)", ""
+            s = s2
+        else:
+            if entry["old"] not in s:
+                return entry, "STALE", "pattern not found (catalogue out of date)", ""
+            s = s.replace(entry["old"], entry["new"], entry.get("count", 1))
         open(p, "w").write(s)
         env = dict(os.environ, FORMAK_REPO=d, PVC_SELFTEST="1")
         out = subprocess.run([os.path.join(VERIF, "check"), entry["property"], "--tier", tier], capture_output=True, text=True, env=env, cwd=VERIF, timeout=3600)
@@ -49,6 +55,13 @@ def run_one(entry, tier):
                 os.unlink(rp)
             except OSError:
                 pass
+        if entry.get("benign"):
+            # a behaviour-preserving edit: the check must stay quiet AND keep every obligation discharged
+            m = re.search(r"obligations=(\d+) discharged=(\d+)", txt)
+            full = bool(m) and m.group(1) == m.group(2)
+            if out.returncode == 0 and not viol and full:
+                return entry, "QUIET", "exit 0, all obligations discharged", txt
+            return entry, "FALSE-ALARM" if (out.returncode == 1 or viol) else "DEGRADED", f"exit {out.returncode}, violations {obl[:3]}, {m.group(0) if m else 'no summary line'}", txt
         if out.returncode == 1 and viol:
             exp = entry.get("expect")
             if exp and not any(any(e in o for e in exp) for o in obl):
@@ -66,8 +79,9 @@ def main():
     ap.add_argument("--tier", default="quick")
     ap.add_argument("-j", type=int, default=8)
     ap.add_argument("-v", action="store_true")
+    ap.add_argument("--benign", action="store_true", help="run the behaviour-preserving edits (benign.json): every one must stay quiet")
     a = ap.parse_args()
-    cat = json.load(open(os.path.join(HERE, "catalogue.json")))
+    cat = json.load(open(os.path.join(HERE, "benign.json" if a.benign else "catalogue.json")))
     if a.only:
         ids = a.only.split(",")
         cat = [e for e in cat if e["property"] in ids]
@@ -77,11 +91,11 @@ def main():
     with cf.ThreadPoolExecutor(a.j) as ex:
         for entry, status, info, txt in ex.map(lambda e: run_one(e, a.tier), cat):
             print(f"{status:17s} {entry['property']} {entry['name']}: {info}", flush=True)
-            if status != "CAUGHT":
+            if status not in ("CAUGHT", "QUIET"):
                 bad += 1
                 if a.v:
                     print(txt[-3000:])
-    print(f"{len(cat) - bad}/{len(cat)} seeded broken bodies caught")
+    print(f"{len(cat) - bad}/{len(cat)} " + ("behaviour-preserving edits left quiet and fully discharged" if a.benign else "seeded broken bodies caught"))
     sys.exit(1 if bad else 0)
 
 
